@@ -129,6 +129,10 @@ def diagnose(c):
         f.write(src + (MON_DIAG_TMPL if c.monitor else DIAG_TMPL).format(mid="true" if c.mid else "false", fuel=c.fuel))
     rc, out, err = common.coqc(path, 3000)
     outs = common.coq_outputs(out)
+    while outs and not outs[0].startswith("V"):
+        if outs[0].strip() in ("false", "(false, true)", "(true, false)", "(false, false)"):
+            return "error", {"log": "dead-variable side condition conc_all_ok is false: " + (out + err)[-600:]}
+        outs = outs[1:]
     verdict = outs[0] if outs else ""
     if verdict.startswith("VCex"):
         return "cex", {"path": verdict, "traces": outs[1] if len(outs) > 1 else ""}
